@@ -11,6 +11,8 @@ package main
 
 import (
 	"fmt"
+	"os"
+	"os/exec"
 	"sort"
 	"strconv"
 	"strings"
@@ -595,7 +597,69 @@ func step(w []string, line string) string {
 	})
 }
 
+// A broker.Service does not give back everything on Close (timers of its monitors keep the
+// service reachable: about 10 MB and 5 goroutines per broker), so a long run is executed in
+// child processes of a few sessions each; the parent only splits the op file at reset lines and
+// appends the children's traces (a child that dies ends the run: the first op without an answer
+// is the one it was executing).
+const sessionsPerChild = 16
+
+func parent() {
+	raw, err := os.ReadFile(os.Args[1])
+	if err != nil {
+		fmt.Fprintln(os.Stderr, err)
+		os.Exit(2)
+	}
+	out, err := os.Create(os.Args[2])
+	if err != nil {
+		fmt.Fprintln(os.Stderr, err)
+		os.Exit(2)
+	}
+	defer out.Close()
+	var chunks [][]string
+	var cur []string
+	n := 0
+	for _, ln := range strings.Split(string(raw), "\n") {
+		if strings.HasPrefix(strings.TrimSpace(ln), "reset ") {
+			if n == sessionsPerChild {
+				chunks = append(chunks, cur)
+				cur, n = nil, 0
+			}
+			n++
+		}
+		cur = append(cur, ln)
+	}
+	chunks = append(chunks, cur)
+	for i, ch := range chunks {
+		opsf := fmt.Sprintf("%s.part%d", os.Args[1], i)
+		trf := fmt.Sprintf("%s.part%d", os.Args[2], i)
+		os.WriteFile(opsf, []byte(strings.Join(ch, "\n")+"\n"), 0o644)
+		cmd := exec.Command(os.Args[0], opsf, trf)
+		cmd.Env = append(os.Environ(), "VERIF_C05_CHILD=1")
+		cmd.Stdout, cmd.Stderr = os.Stdout, os.Stderr
+		runErr := cmd.Run()
+		if tr, err := os.ReadFile(trf); err == nil {
+			out.Write(tr)
+			out.Sync()
+		}
+		os.Remove(opsf)
+		os.Remove(trf)
+		if runErr != nil {
+			fmt.Fprintln(os.Stderr, "c05: child failed:", runErr)
+			out.Close()
+			if ee, ok := runErr.(*exec.ExitError); ok && ee.ExitCode() > 0 {
+				os.Exit(ee.ExitCode())
+			}
+			os.Exit(3)
+		}
+	}
+}
+
 func main() {
+	if len(os.Args) >= 3 && os.Getenv("VERIF_C05_CHILD") == "" {
+		parent()
+		return
+	}
 	links, clients, luids = map[[2]int]*link{}, map[string]int{}, map[string]uint64{}
 	vlib.Run(step)
 	closeAll()
